@@ -182,10 +182,18 @@ def _is_pure_call(call) -> bool:
 
 
 def is_pure(expr) -> bool:
+    consumed = set()        # list literals handed straight to a pure call (np.array([..]), np.amax([a, b])) have no identity of their own
+    for n in ast.walk(expr):
+        if isinstance(n, ast.Call) and _is_pure_call(n):
+            for a in n.args:
+                if isinstance(a, ast.List):
+                    consumed.add(id(a))
     for n in ast.walk(expr):
         if isinstance(n, ast.Call):
             if not _is_pure_call(n):
                 return False
+        elif isinstance(n, ast.List) and id(n) in consumed:
+            continue
         elif isinstance(n, (ast.Lambda, ast.Yield, ast.YieldFrom, ast.Await, ast.NamedExpr, ast.Dict, ast.Set, ast.List)):
             return False
         elif isinstance(n, (ast.ListComp, ast.DictComp, ast.SetComp)):
@@ -587,10 +595,12 @@ class Normaliser:
         for path in sorted(self.modules):
             self._constants(path)
         self._class_constants()
+        self._imported_constants()
         for path in sorted(self.modules):
             tree = self.modules[path].tree
             for q, f, cls in list(func_quals(tree)):
                 self._function(path, q, f, cls)
+        self._imported_constants(everywhere=bool(self.helpers))
         self._drop_unused()
         for path in sorted(self.modules):
             tree = self.modules[path].tree
@@ -717,6 +727,9 @@ class Normaliser:
                             changed = True
         if not consts:
             return
+        self.global_consts = getattr(self, 'global_consts', {})
+        for k_, v_ in consts.items():
+            self.global_consts.setdefault(k_, []).append((path, v_))
         for q, f, cls in func_quals(tree):
             shadow = local_names(f)
             sub = {k: v for k, v in consts.items() if k not in shadow}
@@ -728,6 +741,41 @@ class Normaliser:
                     if isinstance(st, (ast.Assign, ast.AnnAssign)) and st.value is not None:
                         st.value = _Rename({}, consts).visit(st.value)
         self.log.append(f'N1 {path}: propagated new module constants {sorted(consts)}')
+
+    def _imported_constants(self, everywhere=False):
+        """new module constants used from another module: `from .Constants import NAME` (or code inlined from the defining
+        module).  Only names defined as a new constant in exactly one module and bound nowhere else at module level."""
+        gc = {k: v[0] for k, v in getattr(self, 'global_consts', {}).items() if len(v) == 1}
+        if not gc:
+            return
+        for path, mod in self.modules.items():
+            toplevel = set()
+            imported = set()
+            for node in mod.tree.body:
+                if isinstance(node, ast.ImportFrom):
+                    for al in node.names:
+                        if al.name == '*':
+                            imported |= set(gc)
+                        elif (al.asname or al.name) in gc and al.name == (al.asname or al.name):
+                            imported.add(al.name)
+                elif isinstance(node, (ast.Assign, ast.FunctionDef, ast.ClassDef)):
+                    for t in (node.targets if isinstance(node, ast.Assign) else []):
+                        toplevel |= {n.id for n in ast.walk(t) if isinstance(n, ast.Name)}
+                    if not isinstance(node, ast.Assign):
+                        toplevel.add(node.name)
+            for q, f, cls in func_quals(mod.tree):
+                shadow = local_names(f)
+                sub = {}
+                for k, (dpath, val) in gc.items():
+                    if k in shadow or dpath == path:
+                        continue
+                    if k in toplevel:
+                        continue
+                    if k in imported or everywhere:
+                        sub[k] = val
+                if sub and any(isinstance(n, ast.Name) and n.id in sub and isinstance(n.ctx, ast.Load) for n in ast.walk(f)):
+                    _Rename({}, sub).visit(f)
+                    self.log.append(f'N1 {path}::{q}: new constant(s) {sorted(k for k in sub)} of another module propagated')
 
     def _class_constants(self):
         """N1 for new class-level constants: `self.NAME` / `Cls.NAME` loads are replaced by the constant expression when
@@ -1566,7 +1614,8 @@ class Normaliser:
                     for h in st.handlers:
                         h.body = split(h.body)
                 if isinstance(st, ast.Assign) and len(st.targets) == 1 and isinstance(st.targets[0], ast.Tuple) \
-                        and all(isinstance(e, ast.Name) and e.id not in known for e in st.targets[0].elts):
+                        and (all(isinstance(e, ast.Name) and e.id not in known for e in st.targets[0].elts)
+                             or (isinstance(st.value, ast.Tuple) and any(isinstance(n, ast.Name) and n.id not in known and '__i' in n.id for n in ast.walk(st.value)))):
                     sp_ = _split_tuple_assign(st)
                     if sp_:
                         out.extend(sp_)
@@ -1851,7 +1900,8 @@ class Normaliser:
                     if isinstance(b, list) and b and isinstance(b[0], ast.stmt) and not isinstance(st, (ast.FunctionDef, ast.ClassDef)):
                         setattr(st, name, rec2(b))
                 if isinstance(st, ast.Assign) and len(st.targets) == 1 and isinstance(st.targets[0], ast.Tuple) \
-                        and all(isinstance(e, ast.Name) and e.id not in known for e in st.targets[0].elts):
+                        and all(isinstance(e, ast.Name) for e in st.targets[0].elts) \
+                        and (all(e.id not in known for e in st.targets[0].elts) or (isinstance(st.value, ast.Call) and nt_of(st.value))):
                     info = nt_of(st.value)
                     if info and len(self.ntypes[info[0]]) == len(st.targets[0].elts):
                         cls, call = info
@@ -1860,6 +1910,22 @@ class Normaliser:
                             if vals:
                                 st.value = ast.copy_location(ast.Tuple(elts=vals, ctx=ast.Load()), st.value)
                                 norm.log.append(f'N7 {path}::{qual}: unpacking of a {cls}(..) constructor rewritten as a tuple assignment')
+                                sp_ = _split_tuple_assign(st, names_may_be_impure=True)
+                                if sp_:
+                                    out.extend(sp_)
+                                    continue
+                        elif isinstance(st.value, ast.Call) and call is None:
+                            # a, b, c = f(..) with f annotated to return a named tuple: keep the call in a temporary and read its fields
+                            self.k += 1
+                            tmp = f'nt__i{self.k}'
+                            out.append(ast.copy_location(ast.Assign(targets=[ast.Name(id=tmp, ctx=ast.Store())], value=st.value, lineno=st.lineno), st))
+                            st.value = ast.copy_location(ast.Tuple(elts=[ast.copy_location(ast.Attribute(value=ast.Name(id=tmp, ctx=ast.Load()), attr=f, ctx=ast.Load()), st)
+                                                                         for f in self.ntypes[cls]], ctx=ast.Load()), st)
+                            norm.log.append(f'N7 {path}::{qual}: unpacking of the {cls} returned by a call rewritten as field reads')
+                            sp_ = _split_tuple_assign(st)
+                            if sp_:
+                                out.extend(sp_)
+                                continue
                         elif isinstance(st.value, ast.Name):
                             base = st.value
                             st.value = ast.copy_location(ast.Tuple(elts=[ast.copy_location(ast.Attribute(value=ast.Name(id=base.id, ctx=ast.Load()), attr=f, ctx=ast.Load()), base)
